@@ -520,3 +520,19 @@ def param_mutations(func, p):
         if hit and reaches(hit[0], x):
             out.append((x, hit[0], hit[1]))
     return out
+
+
+def clone(n):
+    """Copy of an AST subtree that does not follow the `_parent` links (copy.deepcopy would drag the whole module along)."""
+    if isinstance(n, ast.AST):
+        new = n.__class__()
+        for f in n._fields:
+            if hasattr(n, f):
+                setattr(new, f, clone(getattr(n, f)))
+        for a in ("lineno", "col_offset", "end_lineno", "end_col_offset", "_mod", "_qual"):
+            if hasattr(n, a):
+                setattr(new, a, getattr(n, a))
+        return new
+    if isinstance(n, list):
+        return [clone(x) for x in n]
+    return n
